@@ -507,3 +507,21 @@ def stage_strtype(batch, s):
     ans = impl_call(run)
     batch.add({"op": "strtype", "in": s, "lower": s.lower()}, ans, {"string": s, "project": "strtype"})
     return ans
+
+
+def stage_pylex(batch, s):
+    """bridge (iii): the model's reading of a double-quoted token vs CPython's, on json.dumps(s, ensure_ascii=False)"""
+    import ast
+    import json
+    tok = json.dumps(s, ensure_ascii=False)
+
+    def run():
+        try:
+            v = ast.literal_eval(tok)
+        except Exception:  # noqa
+            return None
+        return [ord(ch) for ch in v]
+
+    ans = impl_call(run)
+    batch.add({"op": "pylex", "in": tok}, ans, {"string": s})
+    return ans
